@@ -152,4 +152,28 @@ Proof.
   destruct (closer_done s); auto. discriminate.
 Qed.
 
+
+(* a finished stage is quiescent and has nothing left to receive once its buffers are empty:
+   the hypotheses of DRAIN are satisfiable exactly by the final states *)
+Lemma done_quiescent s :
+  (forall w, w < par c -> wc (ws s w) = WDone) -> (closer c = false \/ closer_done s = true) -> quiescent s.
+Proof.
+  intros Hd Hc. split.
+  - intros w Hw ch. unfold step_worker. rewrite (Hd w Hw). reflexivity.
+  - unfold step, step_ok. destruct (panicked s); auto. destruct Hc as [->| ->]; simpl; auto.
+    now rewrite andb_false_r.
+Qed.
+
+Lemma find_sender_done s k v n : (forall w, w < n -> wc (ws s w) = WDone) -> find_sender s k v n = None.
+Proof.
+  induction n as [|m IH]; intros H; simpl; auto. rewrite (H m) by lia. apply IH. intros w Hw. apply H. lia.
+Qed.
+
+Lemma done_no_receive s :
+  (forall w, w < par c -> wc (ws s w) = WDone) -> (forall k, cbuf (outs s k) = []) -> no_receive s.
+Proof.
+  intros Hd Hb k v. unfold step, step_ok. destruct (panicked s); auto. rewrite Hb.
+  rewrite (find_sender_done s k v (par c) Hd). destruct (Nat.eqb (ccap (outs s k)) 0 && negb (cclosed (outs s k))); reflexivity.
+Qed.
+
 End Live.
